@@ -152,7 +152,7 @@ def _transpose_step(step, interval, direction):
     inverval
 
     """
-    op = lambda x, y: abs(x + y) % 7 if direction == "up" else abs(x - y) % 7
+    op = lambda x, y: (x + y) % 7 if direction == "up" else (x - y) % 7
     if interval == "P1":
         pass
     else:
@@ -174,6 +174,7 @@ def _transpose_note_inplace(note, interval):
     else:
         # TODO work for arbitrary octave.
         prev_step = note.step.capitalize()
+        prev_octave = note.octave
         note.step = _transpose_step(prev_step, interval.number, interval.direction)
         if STEPS[note.step] - STEPS[prev_step] < 0 and interval.direction == "up":
             note.octave += 1
@@ -182,15 +183,14 @@ def _transpose_note_inplace(note, interval):
         else:
             note.octave = note.octave
         prev_alter = note.alter if note.alter is not None else 0
-        prev_pc = MIDI_BASE_CLASS[prev_step.lower()] + prev_alter
-        tmp_pc = MIDI_BASE_CLASS[note.step.lower()]
-        if interval.direction == "up":
-            diff_sm = tmp_pc - prev_pc if tmp_pc >= prev_pc else tmp_pc + 12 - prev_pc
-        else:
-            diff_sm = prev_pc - tmp_pc if prev_pc >= tmp_pc else prev_pc + 12 - tmp_pc
-        note.alter = (
-            INTERVAL_TO_SEMITONES[interval.quality + str(interval.number)] - diff_sm
-        )
+        semitones = INTERVAL_TO_SEMITONES[interval.quality + str(interval.number)]
+        if interval.direction == "down":
+            semitones = -semitones
+        # the alteration is what is left between the sounding pitch moved by
+        # the interval and the natural note on the new step (and octave)
+        prev_pitch = 12 * prev_octave + MIDI_BASE_CLASS[prev_step.lower()] + prev_alter
+        natural_pitch = 12 * note.octave + MIDI_BASE_CLASS[note.step.lower()]
+        note.alter = prev_pitch + semitones - natural_pitch
 
 
 def transpose_note_old(step, alter, interval):
